@@ -553,7 +553,7 @@ def cells(prop, tier):
         combos = [(False, -1, 1), (False, -1, 2), (False, 0, 1), (False, 0, 2), (False, 2, 1), (False, 2, 2), (True, -1, 1), (True, 0, 1)]
         for (re, tmo, nobj) in combos:
             for s0 in range(5):
-                isq = tmo != 2 and not (re and tmo == 0)
+                isq = tmo != 2 and not (re and tmo == 0) and not ((re, tmo, nobj) == (False, 0, 2) and s0 in (0, 3, 4))
                 out.append(Cell(
                     name='c02_2t_re%d_tmo%s_obj%d_%s' % (re, str(tmo).replace('-', 'm'), nobj, STYLES[s0]),
                     sig='s1: int, prio_idx: int, p1: int',
@@ -565,7 +565,7 @@ def cells(prop, tier):
             out.append(Cell(name='c02_3t_ctx_prio%d' % pr, sig='s2: int, p1: int, q1: int',
                             pre=['0 <= s2 <= 1 and 0 <= p1 <= 130 and 0 <= q1 <= 1'],
                             body='H.scen_c02([0, 2, s2], -1, False, 2, 2, %d, p1, q1, 0, 0, 1, 1, (0, 0, 1))' % pr,
-                            tier=q, timeout=900, family='c02', weight=4))
+                            tier=q if pr in (0, 2, 4) else 'thorough', timeout=900, family='c02', weight=4))
             out.append(Cell(name='c02_3t_ctx_full_prio%d' % pr, sig='s0: int, s2: int, p1: int, q1: int',
                             pre=['0 <= s0 <= 1 and 0 <= s2 <= 4 and 0 <= p1 <= 130 and 0 <= q1 <= 1'],
                             body='H.scen_c02([s0, 2, s2], -1, False, 2, 2, %d, p1, q1, 0, 0, 1, 1, (0, 0, 1))' % pr,
@@ -634,7 +634,7 @@ def cells(prop, tier):
             out.append(seqcell(2, re, (-1, 2), 'thorough', 1500))
         for re in ((0, 0), (1, 1)):
             for first in range(nk):
-                isq = first in (0, 2, 3, 5)
+                isq = first in (0, 2, 5) or (first == 3 and re == (1, 1))
                 out.append(seqcell(3, re, (0, 0), q if isq else 'thorough', 900, first=first, fix='oo'))   # one object, both threads
                 isq = first == 2 and re == (0, 0)
                 out.append(seqcell(3, re, (0, 0), q if isq else 'thorough', 900, first=first, fix='tt'))   # one thread, both objects
@@ -664,9 +664,10 @@ def cells(prop, tier):
             for re in (False, True):
                 if re and prog != 2:
                     continue
-                out.append(Cell(name='c13_prog%d_re%d' % (prog, re), sig='kill_after: int, nsurv: int, csdur: int, prio_idx: int',
-                                pre=['1 <= kill_after <= 60 and 0 <= nsurv <= 1 and 0 <= csdur <= 1 and 0 <= prio_idx <= 1'],
-                                body='H.scen_c13(%d, kill_after, nsurv, csdur, prio_idx, %r, -1)' % (prog, re), tier=q, timeout=600, family='c13', weight=3))
+                for ns in (0, 1):
+                    out.append(Cell(name='c13_prog%d_re%d_surv%d' % (prog, re, ns), sig='kill_after: int, csdur: int, prio_idx: int',
+                                    pre=['1 <= kill_after <= 60 and 0 <= csdur <= 1 and 0 <= prio_idx <= %d' % ns],
+                                    body='H.scen_c13(%d, kill_after, %d, csdur, prio_idx, %r, -1)' % (prog, ns, re), tier=q, timeout=600, family='c13', weight=3 + ns))
         out.append(Cell(name='twin_c13', sig='kill_after: int', pre=['1 <= kill_after <= 40'], body='H.twin_c13(kill_after)',
                         expect='refute', timeout=200, family='c13'))
         if tier == 'thorough':
